@@ -476,6 +476,15 @@ func (e *env) bbServer(d caseDesc, form string) {
 				return
 			}
 			o := e.classifyEndpoint(netOfProto(target.Proto), target.Addr, nat)
+			if o.Kind == "" {
+				// a socket that was only open while the process was on its way out (bind first, fail later)?
+				select {
+				case <-c.done:
+					e.judgeExit(d, form, c, bo)
+					return
+				case <-time.After(2 * time.Second):
+				}
+			}
 			bo.Observed = &o
 			e.rec.Seen("observed_transports_bb", in.Pos+":"+o.String())
 			e.rec.Stat("bb_probed_endpoints", 1)
